@@ -131,9 +131,13 @@ func main() {
 		r.Rule("(a) BFS over Publish/Resolve/advance-clock sequences per configuration (cache size x max-cache-TTL), successor = replay on a fresh name system + 1 op, state = stored records + resolver cache dump + model; non-trivial = path of >= 2 operations. (b) every chain shape (length, terminal /ipfs or back-edge) x per-hop TTL vector x per-hop remainder vector x request remainder x depth limit x cache mode; non-trivial = chain of >= 2 hops")
 		r.Assume("routing/offline over go-datastore MapDatastore, ipns record creation/validation and golang-lru are correct")
 		r.Assume("record EOLs are 48 h ahead of the virtual clock and the virtual clock is ahead of the real one, so validity never interferes; total clock advance in a history stays far below 48 h")
+		tA := time.Now()
 		partA(r)
+		r.Set("a_wall_s", int(time.Since(tA).Seconds())) // informational only
 		if !r.Expired() {
+			tB := time.Now()
 			partB(r)
+			r.Set("b_wall_s", int(time.Since(tB).Seconds()))
 		} else {
 			r.Incomplete("budget expired before part (b)")
 		}
